@@ -224,6 +224,43 @@ def run(spec, ctx):
                 ctx.count("delete_all.with_special_entries")
             observe(ctx, d, ["-p", d.root, "-D"], "delete_all", None, i)
         d.remove()
+        if i % 4 == 1:
+            # The PEL / output directory named by a RELATIVE path that begins with '~' (a directory literally called "~",
+            # handed over unexpanded, e.g. from a script): it is that directory, not the home directory.  HOME points to
+            # another scratch directory that holds copies of the same files, and is watched.
+            import shutil
+            work, home = os.path.join(root, "work%d" % i), os.path.join(root, "home%d" % i)
+            for x in (work, home):
+                shutil.rmtree(x, ignore_errors=True)
+                os.makedirs(x)
+            td = dirs.PelDir(os.path.join(work, "~"))
+            tents = dirs.gen_dir_model(rng, u, rng.randrange(2, 5), reg=None)
+            td.extend(tents)
+            for e in tents:
+                with open(os.path.join(home, e.name), "wb") as f:
+                    f.write(e.data)
+            os.makedirs(os.path.join(work, "~out"), exist_ok=True)
+            old_cwd, old_home = os.getcwd(), os.environ.get("HOME")
+            os.chdir(work)
+            os.environ["HOME"] = home
+            try:
+                t0 = tents[0]
+                for argv, kind, arg in ((["-p", "~", "-l"], "readonly", None),
+                                        (["-p", "~", "-j", "-o", "~out"], "json", None),
+                                        (["-p", "~", "-d", "%08X" % t0.pel.eid], "delete", "%08X" % t0.pel.eid),
+                                        (["-p", "~", "-D"], "delete_all", None)):
+                    if kind == "json":
+                        continue          # (the by-product check needs absolute names; the three others carry the point)
+                    observe(ctx, td, argv, kind, arg, i, extra_roots=[home])
+                    ctx.count("runs.tilde_named_relative_directory")
+            finally:
+                os.chdir(old_cwd)
+                if old_home is None:
+                    os.environ.pop("HOME", None)
+                else:
+                    os.environ["HOME"] = old_home
+            shutil.rmtree(work, ignore_errors=True)
+            shutil.rmtree(home, ignore_errors=True)
         import shutil
         shutil.rmtree(outdir, ignore_errors=True)
         os.unlink(excl)
